@@ -622,6 +622,13 @@ class C17(Prop):
             for a in mops1:
                 for b in mops1:
                     yield {"kind": "mseq", "cap": cap, "ops": [a, b, ["g", 0, 0], ["x"]]}
+        # queue shapes of an idle pool other than "one idle connection": eviction / clear() must still close
+        # every open socket, also one lying under a `None` placeholder
+        shapes = [[1, 1], [1, 0], [0, 1], [0, 0], [1, 0, 1], [1, 1, 0], [0, 1, 0], [1, 0, 0]]
+        for shape in shapes:
+            for cap in (0, 1, 2):
+                for tail in ([["c"], ["x"]], [["g", 1, 0], ["g", 2, 0], ["x"]], [["g", 1, 0], ["r", 0], ["x"]], [["x"]]):
+                    yield {"kind": "mseq", "cap": cap, "shape": shape, "ops": [["g", 0, 0]] + tail}
         for _ in range(12000 if deep else 1200):
             cap = rng.choice([0, 1, 2, 2, 3, 3])
             ops = []
@@ -633,7 +640,10 @@ class C17(Prop):
                     ops.append([o, rng.randrange(8)])
                 else:
                     ops.append([o])
-            yield {"kind": "mseq", "cap": cap, "ops": ops}
+            c = {"kind": "mseq", "cap": cap, "ops": ops}
+            if rng.random() < 0.4:
+                c["shape"] = rng.choice(shapes)
+            yield c
         # --- manager races
         mfixed = [
             (2, [[["g", 0, 0]], [["g", 0, 1]]]),
@@ -801,10 +811,10 @@ class C17(Prop):
                 "ndisp": len(log), "hang": hang, "outcome": outcome, "setline": "outcomes %d %s" % (cap, ptok)}
 
     # ------------------------------------------------------------------ manager
-    def new_manager(self, cap):
+    def new_manager(self, cap, maxsize=1):
         from urllib3.poolmanager import PoolManager
         registry = []
-        pm = PoolManager(num_pools=cap)
+        pm = PoolManager(num_pools=cap, maxsize=maxsize)
         cls = make_pool_class(registry)
         pm.pool_classes_by_scheme = {"http": cls, "https": cls}
         return pm, registry
@@ -823,7 +833,11 @@ class C17(Prop):
 
     def run_mseq(self, case, res):
         cap, ops = case["cap"], case["ops"]
-        pm, registry = self.new_manager(cap)
+        # what a pool's queue looks like when it becomes idle (bottom -> top): 1 = an idle open connection,
+        # 0 = a `None` placeholder left by a request whose connection was thrown away.  A live connection
+        # may sit UNDER a placeholder (two requests in flight, the first released, the second failed).
+        shape = case.get("shape") or [1]
+        pm, registry = self.new_manager(cap, len(shape))
         lines, out = ["mnew %d" % cap], ["ok"]
         held = []                       # strong references = callers / in-flight responses
         last_for_key = {}               # origin -> pool object handed out while the origin stayed cached
@@ -841,9 +855,17 @@ class C17(Prop):
                     break
                 fresh = len(registry) > before
                 if fresh:
-                    # the pool gets one idle open connection (as after a completed request)
-                    cn = p._get_conn()
-                    p._put_conn(cn)
+                    # the pool's slots are all used once and come back as `shape` says
+                    cns = [p._get_conn() for _ in shape]
+                    for cn, live in zip(cns, shape):
+                        if live:
+                            p._put_conn(cn)
+                        else:
+                            # thrown away by its request (as urlopen does): no longer the pool's business
+                            cn.close()
+                            registry[p.vid]["conns"].remove(cn)
+                            p._put_conn(None)
+                    del cns, cn
                 held.append(p)
                 lines.append("goc %d" % k)
                 r = "p%d%s" % (p.vid, "+" if fresh else "=")
